@@ -1054,7 +1054,12 @@ impl Snapshot {
 }
 
 /// Manifest: tracks valid snapshots and WAL segments
+///
+/// The file carries no checksum. A damaged key of an optional field would otherwise be
+/// skipped as unknown and the field would silently read as `None` (recovery would then
+/// start without the snapshot), so unknown keys are a decode error.
 #[derive(Debug, Clone, Serialize, Deserialize)]
+#[serde(deny_unknown_fields)]
 pub struct Manifest {
     pub version: u32,
     pub latest_snapshot: Option<String>,
